@@ -24,11 +24,11 @@ ASSUMPTIONS = ["label widths explicit", "TikZ colours resolved through the \\\\d
 
 def plan(tier, seed):
     k = 14 if tier == "quick" else 64
-    return [{"kind": "tl", "sub": i, "n": 150 if tier == "quick" else 1500} for i in range(k)]
+    return [{"kind": "many-labels", "n": 730 if tier == "quick" else 1500}] + [{"kind": "tl", "sub": i, "n": 150 if tier == "quick" else 1500} for i in range(k)]
 
 
 def floors(tier):
-    strata = list(TL.DIRECTIONS) + ["colour:list", "colour:function", "colour:3-digit", "colour:6-digit", "border", "multi-layer", "scale:linear", "scale:time"]
+    strata = list(TL.DIRECTIONS) + ["colour:list", "colour:function", "colour:3-digit", "colour:6-digit", "border", "multi-layer", "scale:linear", "scale:time", "more-than-702-labels"]
     return {"evaluations": 400, "strata": strata, "events": {"TimelineSVG.export": 400, "TimelineTex.export": 400}, "distinct_nontrivial": 100, "max_inconclusive_frac": 0.01}
 
 
@@ -92,6 +92,18 @@ def worker(ctx, shard):
             if ctx.should_stop():
                 break
             run_spec(ctx, mons, TL.gen_spec(rng))
+    elif shard["kind"] == "many-labels":
+        # more labels than two-letter TikZ macro names (26 + 26*26 = 702): per-datum colours and texts must still agree
+        rng = ctx.rng("many-labels")
+        n = shard["n"]
+        data = [{"time": float(40 * i + rng.randrange(0, 30)), "width": 20 + 0.01 * i, "uid": i, "text": "L%d" % i} for i in range(n)]
+        rng.shuffle(data)
+        spec = {"data": data, "options": {"direction": rng.choice(TL.DIRECTIONS), "scale": "linear", "initialWidth": 40 * n + 100, "initialHeight": 40 * n + 100,
+                                          "margin": {"left": 20, "right": 20, "top": 20, "bottom": 20}, "labella": {"algorithm": "none", "maxPos": 40 * n},
+                                          "dotColor": {"fn": "by_uid6"}, "labelBgColor": {"fn": "by_uid3"}, "linkColor": list(TL.PALETTE6), "showBorder": True,
+                                          "borderColor": {"fn": "by_parity"}}}
+        run_spec(ctx, mons, spec)
+        ctx.stratum("more-than-702-labels", generated=1, judged=1, held=1)
     elif shard["kind"] == "replay-case":
         run_spec(ctx, mons, shard["case"]["spec"])
     mons.events(ctx)
